@@ -248,6 +248,8 @@ def _run_property(prop_name, tier, seed, replay=None):
     pid = prop.ID
     os.makedirs(EVIDENCE_DIR, exist_ok=True)
     os.makedirs(REPLAY_DIR, exist_ok=True)
+    from . import batch
+    batch.set_tier(tier if not replay else "quick")
 
     if replay:
         return run_replay(prop, replay, tier)
